@@ -65,10 +65,21 @@ class LeanAudit:
         self.log = p.stdout + p.stderr
         build_ok = p.returncode == 0
         axioms = {}
-        for m in re.finditer(r"'MdpaxV\.%s\.([A-Za-z0-9_'.]+)' depends on axioms: \[([^\]]*)\]" % self.prop, self.log):
-            axioms[m.group(1)] = {a.strip() for a in m.group(2).split(",") if a.strip()}
-        for m in re.finditer(r"'MdpaxV\.%s\.([A-Za-z0-9_'.]+)' does not depend on any axioms" % self.prop, self.log):
-            axioms[m.group(1)] = set()
+        if build_ok:
+            # independent axiom audit of *every* theorem of the property file
+            with tempfile.TemporaryDirectory(prefix="mdpaxv_ax_") as td:
+                f = Path(td) / "Axioms.lean"
+                f.write_text(f"import {mod}\n" + "".join(f"#print axioms MdpaxV.{self.prop}.{t}\n" for t in self.obligations))
+                cmd2 = ["lake", "env", "lean", str(f)]
+                self.cmds.append("cd lean && lake env lean <#print axioms for every theorem of Props/%s.lean>" % self.prop)
+                p2 = subprocess.run(cmd2, cwd=LEAN, capture_output=True, text=True)
+                self.log += p2.stdout + p2.stderr
+                txt = (p2.stdout + p2.stderr).replace("\n  ", " ").replace("\n ", " ")
+            for m in re.finditer(r"'MdpaxV\.%s\.([A-Za-z0-9_'.]+)' depends on axioms:\s*\[([^\]]*)\]" % self.prop, txt):
+                axioms[m.group(1)] = {a.strip() for a in m.group(2).split(",") if a.strip()}
+            for m in re.finditer(r"'MdpaxV\.%s\.([A-Za-z0-9_'.]+)' does not depend on any axioms" % self.prop, txt):
+                axioms[m.group(1)] = set()
+        self.axioms = {k: sorted(v) for k, v in axioms.items()}
         # forbidden constructs anywhere in the library (outside comments)
         bad = []
         for f in list((LEAN / "MdpaxV").rglob("*.lean")) + [LEAN / "Driver.lean"]:
